@@ -1,6 +1,6 @@
 SPECIFICATION Spec
 CONSTANTS
-  Tier = "mut2"
+  Tier = "mut"
   Fams = {"*"}
   MaxSteps = 600
   Predict = FALSE
